@@ -30,7 +30,7 @@ func init() {
 	// the base oracles also see the registry application's methods.
 	RegisterBaseExtra(&BaseExtra{
 		Name:    "registry",
-		Kinds:   []string{"c17.ent", "c17.node", "c17.node", "c17.node", "c17.rt", "c17.dereg", "c17.fund"},
+		Kinds:   []string{"c17.ent", "c17.ent", "c17.node", "c17.node", "c17.node", "c17.rt", "c17.rt", "c17.dereg", "c17.dereg", "c17.fund"},
 		WideArg: true,
 	})
 }
